@@ -100,7 +100,8 @@ Definition obs_adaptors (s : store) (model : bool) : sx :=
               L [of_nats (ad_annotations s model sel); of_nats (ad_targets_one s sel); of_nats (ad_targets_max s model sel);
                  sx_pairs (ad_data sel); sx_pairs (ad_data_meta s model sel);
                  sx_pairs (ad_keys s sel); sx_pairs (ad_keys_meta s model sel);
-                 of_nats (ad_resources s model sel); of_nats (ad_resources_meta s model sel)]) [false; true]);
+                 of_nats (ad_resources s model sel); of_nats (ad_resources_meta s model sel);
+                 of_nats (ad_ts_annotations s model sel)]) [false; true]);
      L (map (fun d => match get_set s d with
                       | None => dead
                       | Some ds =>
@@ -116,7 +117,7 @@ Definition obs_adaptors (s : store) (model : bool) : sx :=
                                               | Some _ => derived (key_anns s model d ds k)
                                               end) (seq 0 (length (d_keys ds))))]
                       end) (seq 0 (length (sets s))));
-     L [of_nats (res_annotations s model); of_nats (res_annotations_meta s model)]].
+     L [of_nats (res_annotations s model); of_nats (res_annotations_meta s model); of_nats (res_ts_annotations s model)]].
 
 (* operation 14 = AnnotationStore::shrink_to_fit: performance only, the model does nothing *)
 Fixpoint run_ops (s : store) (ops : list sx) (forms : list sx) : list sx :=
